@@ -566,7 +566,11 @@ def observe_class(obj, names, candidates, ctx):
                 back = Deserializer(obj).deserialize(doc)
                 des = repr(sorted((n, E.reify(getattr(back, n), S.struct_attrs)) for n in names))
             except Exception as ex:  # noqa
-                des = "deserialize-raises:" + E.exn_name(ex)
+                # with several members that do not survive the round trip, WHICH error surfaces first follows the
+                # order of declaration, which the property does not speak about
+                xn = E.exn_name(ex)
+                des = "deserialize-raises:" + ("TypeError|ValueError" if len(names) > 1 and xn in
+                                                ("TypeError", "ValueError") else xn)
         out["beh"].append(("ok", state, ser, des))
     return out
 
